@@ -176,3 +176,10 @@ def Agg(label_suffix, *ops):
             return len(e[2]) >= len(ops) and all(p(a) for p, a in zip(ops, e[2]))
         return True
     return m
+
+
+def Local(idx):
+    """parameter `idx` (MIR local), also when it is re-assigned / written through (phi term)"""
+    def m(e):
+        return isinstance(e, tuple) and ((e[0] == "param" and e[2] == idx) or (e[0] == "phi" and e[1] == idx))
+    return m
